@@ -1,3 +1,3 @@
 module verif.local/simrt
 
-go 1.19
+go 1.20
